@@ -17,7 +17,7 @@ Qed.
 
 Lemma sitem_run_is_run : forall c s, exists sched, sitem_run c s = crun c sched.
 Proof.
-  intros c [n|i|i]; simpl.
+  intros c [n|i|i]; unfold sitem_run.
   - eexists; reflexivity.
   - exists [TR i]. reflexivity.
   - destruct (srun_is_run 12 c i) as [k Hk]. eexists; exact Hk.
@@ -26,7 +26,7 @@ Qed.
 Theorem tie_schedule_is_schedule : forall items c,
   exists sched, fold_left sitem_run items c = crun c sched.
 Proof.
-  induction items as [|s r IH]; intros c; simpl.
+  induction items as [|s r IH]; intros c; cbn [fold_left].
   - exists []. reflexivity.
   - destruct (sitem_run_is_run c s) as [s1 H1]. destruct (IH (sitem_run c s)) as [s2 H2].
     exists (s1 ++ s2). rewrite H2, H1. unfold crun. rewrite run_app. reflexivity.
